@@ -296,6 +296,18 @@ def run_one(ck, prog):
                     ck.ob("C14.5", "subdir-removed-with-removedir-after-recursion", fl == 0x200, fn=ra["path"], site=ctx.site(bb), detail=f"a sub-directory is removed with AT_REMOVEDIR (0x200) after its content; flags {fl}")
                 else:
                     ck.ob("C14.5", "non-directories-unlinked-without-removedir", fl == 0 and not cfg.dominates(opens[0], bb), fn=ra["path"], site=ctx.site(bb), detail=f"files and links are unlinked (never followed) with flags 0; flags {fl}")
+    # the entries skipped are exactly "." and "..": the test accepts a name iff it is one of the two, terminator included (a name that merely
+    # starts with two dots - "..data" - is an ordinary entry and must be removed / listed like any other)
+    irr = [f for p2, f in prog.fns.items() if p2.startswith("tiny_std::fs::DirEntry") and p2.endswith("::is_relative_reference")]
+    if ck.anchor("C14.5", "DirEntry::is_relative_reference", irr):
+        from ..engine import bytepat
+        c5 = prog.ctx(irr[0])
+        rows = bytepat.accepted(c5, lambda e: isinstance(e, tuple) and e and e[0] == "field" and e[2] == "d_name")
+        if rows is None:
+            ck.ob("C14.5", "relative-reference-is-exactly-dot-and-dotdot", False, fn=irr[0]["path"], detail="the name test is not a combination of byte comparisons of d_name with literals; it cannot be compared with the intended set {\".\", \"..\"}")
+        else:
+            ok, why = bytepat.language_is(rows, [[46, 0], [46, 46, 0]])
+            ck.ob("C14.5", "relative-reference-is-exactly-dot-and-dotdot", ok and len(rows) >= 2, fn=irr[0]["path"], detail=f"is_relative_reference must hold exactly for the names \".\" and \"..\" (with their terminator): it {why}")
     rda = prog.fns.get("tiny_std::fs::remove_dir_all")
     if ck.anchor("C14.5", "remove_dir_all", rda):
         ctx = prog.ctx(rda)
